@@ -212,7 +212,7 @@ class Check:
             os.makedirs(rdir, exist_ok=True)
             seen = set()
             for f in unknown:
-                if f["key"] in seen:
+                if f["key"] in seen or nviol >= 12:       # one replay per distinct classifier, at most 12 per run
                     continue
                 seen.add(f["key"])
                 nviol += 1
